@@ -28,11 +28,11 @@ def _retry_unknown(its, timeout_ms):
     get one more attempt with three times the budget (at most a handful per task)"""
     from pyvc.run import discharge, _SLOW
     for it in its:
-        if it.result == 'unknown' and it.assertions is not None and _RETRIES[0] < 6 and _SLOW.get(it.clause, 0) < 3:
+        if it.result == 'unknown' and it.assertions is not None and _RETRIES[0] < 3 and _SLOW.get(it.clause, 0) < 3:
             _RETRIES[0] += 1            # per process: a tree that is really broken must not cost minutes per clause
             it.result = None
             _SLOW[it.clause] = 0
-            discharge(it, timeout_ms * 3)
+            discharge(it, timeout_ms * 2)
 
 
 def _work(task):
